@@ -344,6 +344,33 @@ func (f *frame) resolveName(name string) (SV, bool) {
 					pos = i
 				}
 			}
+			// every value the variable is ever bound to (debug references), with the block of
+			// each binding: needed to tell a superseded definition from the reaching one
+			type binding struct {
+				v ssa.Value
+				b *ssa.BasicBlock
+			}
+			var all []binding
+			distinct := map[ssa.Value]bool{}
+			for _, b := range f.fn.Blocks {
+				for _, in := range b.Instrs {
+					if d, ok := in.(*ssa.DebugRef); ok && !d.IsAddr {
+						if id, ok := d.Expr.(*ast.Ident); ok && id.Name == name {
+							all = append(all, binding{d.X, b})
+							distinct[d.X] = true
+						}
+					}
+				}
+			}
+			give := func(v ssa.Value) (SV, bool) {
+				if sv, ok := f.vals[v]; ok {
+					return sv, true
+				}
+				if c, ok := v.(*ssa.Const); ok {
+					return f.enc.constTerm(c), true
+				}
+				return SV{}, false
+			}
 			// this block, then its dominators (the definition reaching the call along every path)
 			for b := blk; b != nil; b = b.Idom() {
 				start := len(b.Instrs) - 1
@@ -351,15 +378,42 @@ func (f *frame) resolveName(name string) (SV, bool) {
 					start = pos - 1
 				}
 				for i := start; i >= 0; i-- {
-					if d, ok := b.Instrs[i].(*ssa.DebugRef); ok && !d.IsAddr {
-						if id, ok := d.Expr.(*ast.Ident); ok && id.Name == name {
-							if sv, ok := f.vals[d.X]; ok {
-								return sv, true
-							}
-							if c, ok := d.X.(*ssa.Const); ok {
-								return f.enc.constTerm(c), true
-							}
+					d, ok := b.Instrs[i].(*ssa.DebugRef)
+					if !ok || d.IsAddr {
+						continue
+					}
+					id, ok := d.Expr.(*ast.Ident)
+					if !ok || id.Name != name {
+						continue
+					}
+					if b == blk || len(distinct) == 1 {
+						// straight-line code before the call, or a variable bound only once
+						if sv, ok := give(d.X); ok {
+							return sv, true
 						}
+						continue
+					}
+					// a binding in a strict dominator reaches the call only if no other binding
+					// of the variable lies on a path from there to the call: accept a phi when
+					// every other binding is outside the region between its block and the call
+					ph, isPhi := d.X.(*ssa.Phi)
+					if !isPhi {
+						continue
+					}
+					between := false
+					for _, o := range all {
+						if o.v == ssa.Value(ph) || o.b == b {
+							continue
+						}
+						if b.Dominates(o.b) && o.b != blk && !blk.Dominates(o.b) {
+							between = true
+						}
+					}
+					if between {
+						continue
+					}
+					if sv, ok := give(d.X); ok {
+						return sv, true
 					}
 				}
 			}
